@@ -110,3 +110,23 @@ Theorem C07_source_make_netloc : forall (q : str -> str) (user password host : o
   gen_make_netloc q user password host port encode = make_netloc q user password host port encode.
 Proof. exact gen_make_netloc_eq. Qed.
 Print Assumptions C07_source_make_netloc.
+
+(** THE CONSTRUCTORS THEMSELVES.  encode_url and pre_encoded_url of yarl/_url.py are re-read
+    from the working tree on every run (harness/gen_model.py, third scheme: a procedure in the
+    result monad - calls of split_url / split_netloc / _encode_host are binds, [raise
+    ValueError] is [Err ValueError], every [if] narrows the Optional it tests, [cache[k] = e]
+    appends to the cache, [self._x = e] / [return self] build the object) and proved to build
+    exactly the URL value of the hand-written model: the same outcome (value or exception
+    type) on EVERY input string, the same five stored strings, the same pre-computed authority
+    parts, and every other primed cache entry (scheme, raw_path, raw_query_string,
+    raw_fragment) equal to what the accessor of that name computes; an entry under any other
+    key breaks the proof.  The callees are the model's functions. *)
+From Yarl Require Import Model.Url Model.GenTypes Generated.UrlGen Proofs.GenUrlProofs.
+Theorem C07_source_encode_url : forall (O : oracles) (B : backend) (s : str),
+  same_outcome (gen_encode_url O B s) (encode_url O B s).
+Proof. exact gen_encode_url_ok. Qed.
+Print Assumptions C07_source_encode_url.
+Theorem C07_source_pre_encoded_url : forall (O : oracles) (s : str),
+  same_outcome (gen_pre_encoded_url O s) (pre_encoded_url O s).
+Proof. exact gen_pre_encoded_url_ok. Qed.
+Print Assumptions C07_source_pre_encoded_url.
